@@ -48,8 +48,14 @@ def enqueue (s : Enc) (p : Lit) : Bool × Enc :=
   | some b => (b, s)
   | none => (true, { s with vals := s.vals.set p.var (some p.sign) })
 
-/-- `std::sort(…, variable(l0) < variable(l1))` -/
-def sortByVar (ls : List Lit) : List Lit := ls.mergeSort (fun a b => a.var ≤ b.var)
+/-- insertion step of the stable sort by variable: `x` goes before the first element whose
+    variable is not smaller -/
+def insertByVar (x : Lit) : List Lit → List Lit
+  | [] => [x]
+  | y :: t => if x.var ≤ y.var then x :: y :: t else y :: insertByVar x t
+
+/-- `std::sort(…, variable(l0) < variable(l1))`, as a stable sort -/
+def sortByVar (ls : List Lit) : List Lit := ls.foldr insertByVar []
 
 /-- the filtering loop of `new_clause`: `none` = already satisfied / tautology -/
 def scanClause (s : Enc) : List Lit → Option Lit → List Lit → Option (List Lit)
